@@ -755,3 +755,6 @@ func (g *Gen) genBatch(k string) Op {
 		return op
 	}
 }
+
+// GenFilterOp draws a NewFilter op (used by engine B to draw filter specs).
+func (g *Gen) GenFilterOp() Op { return g.genFilter() }
